@@ -115,8 +115,25 @@ class Env:
         """position arguments in the profile's notation"""
         cr, cc = self.p.crow(r), self.p.ccol(c)
         if self.p.a1 and cc >= 0:
+            if self.p.a1 == "dollar":
+                k = (cr * 7 + cc * 3) % 4            # every '$' placement in turn
+                return (("$" if k & 1 else "") + colname(cc) + ("$" if k & 2 else "") + str(cr + 1),)
             return (colname(cc) + str(cr + 1),)
         return (cr, cc)
+
+    def pos_call(self, tb, r, c, fn):
+        """call fn(*position).  In the lower-case notation the lower-case spelling is tried first: the library may refuse it
+        (IndexError, nothing changed - then the call is repeated in upper case) or read it like the upper-case one; whatever it
+        does is then judged like any other call"""
+        args = self.pos_args(r, c)
+        if self.p.a1 == "lower" and isinstance(args[0], str) and args[0].lower() != args[0]:
+            dims = (tb.num_rows, tb.num_cols)
+            try:
+                return fn(args[0].lower())
+            except IndexError:
+                if (tb.num_rows, tb.num_cols) != dims:
+                    raise RuntimeError("a refused lower-case reference changed the table from %s to %s" % (dims, (tb.num_rows, tb.num_cols))) from None
+        return fn(*args)
 
     # ---- ops
     def apply(self, op):
@@ -127,7 +144,8 @@ class Env:
         res = None
         try:
             if k == "write":
-                self.table(op["h"], op["s"], op["t"]).write(*self.pos_args(op["r"], op["c"]), p.val(op["v"]))
+                tbw = self.table(op["h"], op["s"], op["t"])
+                self.pos_call(tbw, op["r"], op["c"], lambda *pos: tbw.write(*pos, p.val(op["v"])))
             elif k == "touch":
                 res = self.touch(op)
             elif k == "addrow":
@@ -180,7 +198,7 @@ class Env:
             elif k == "cell":
                 tb = self.table(op["h"], op["s"], op["t"])
                 try:
-                    res = p.tok(tb.cell(*self.pos_args(op["r"], op["c"])).value)
+                    res = p.tok(self.pos_call(tb, op["r"], op["c"], lambda *pos: tb.cell(*pos)).value)
                 except IndexError:
                     res = "IndexError"
             elif k in ("byindex", "byname", "contains", "len"):
@@ -240,15 +258,15 @@ class Env:
                 n += 1000
                 name = "NV %s %d" % (self.tag, n)
             st = doc.add_style(name=name, bold=True)
-            tb.set_cell_style(*pos, st)
+            self.pos_call(tb, op["r"], op["c"], lambda *pos: tb.set_cell_style(*pos, st))
             want = name
         elif kind == "border":
             b = Border(1.0 + 0.25 * (n % 20), RGB(10, 20, (30 + n) % 256), "solid")
-            tb.set_cell_border(*pos, "top", b)
+            self.pos_call(tb, op["r"], op["c"], lambda *pos: tb.set_cell_border(*pos, "top", b))
             want = repr(b)
         else:
             places = n % 5 + 1
-            tb.set_cell_formatting(*pos, "number", decimal_places=places)
+            self.pos_call(tb, op["r"], op["c"], lambda *pos: tb.set_cell_formatting(*pos, "number", decimal_places=places))
             want = None
         after = self._marks(tb, kind)
         tgt = (self.p.crow(op["r"]), self.p.ccol(op["c"]))
